@@ -97,7 +97,8 @@ def run_capture(case):
         for k in ('weights', 'alpha'):
             if k in case.get('arrays', {}):
                 kw[k] = np.array(case['arrays'][k], dtype=float)
-        f = Baseline(x_data=np.arange(len(y), dtype=float), check_finite=False, assume_sorted=True)
+        xs = np.array(case['x'], dtype=float) if 'x' in case else np.arange(len(y), dtype=float)
+        f = Baseline(x_data=xs, check_finite=False, assume_sorted=True)
         f.banded_solver = bs
         exc = None
         with Capture() as cap, warnings.catch_warnings(), np.errstate(all='ignore'):
@@ -108,7 +109,39 @@ def run_capture(case):
                 exc = f'{type(e).__name__}: {e}'
         out[str(bs)] = {'calls': cap.calls[:case.get('ncalls', 1)], 'flags': cap.flags[:case.get('ncalls', 1)],
                         'exc': exc, 'pentapy_solver': getattr(f, '_pentapy_solver', None)}
+        if case.get('want_basis') and getattr(f, '_spline_basis', None) is not None:
+            out[str(bs)]['basis'] = np.asarray(f._spline_basis.basis.toarray(), dtype=float).tolist()
     return out
+
+
+
+# ---------------------------------------------------------------------------- banded products of beads
+def run_bdb(case):
+    """_banded_dot_banded / _numba_banded_dot_banded on integer band arrays: the wrapper's output, the raw
+    kernel output on a zeroed array, and (when numba is importable) the same from the kernel's py_func."""
+    import numpy as np
+    from pybaselines import misc
+    a = np.array(case['a'], dtype=float)
+    b = np.array(case['b'], dtype=float)
+    n, al, au, bl, bu, sym = case['n'], case['al'], case['au'], case['bl'], case['bu'], case['sym']
+    res = {}
+    try:
+        res['wrapper'] = misc._banded_dot_banded(a, b, (al, au), (bl, bu), (n, n), (n, n), bool(sym)).tolist()
+    except Exception as e:   # noqa
+        res['wrapper_exc'] = type(e).__name__
+    cu, cl = min(au + bu, n - 1), min(al + bl, n - 1)
+    lb = 0 if sym else al + bl
+    kern = misc._numba_banded_dot_banded
+    for name, fn in (('kernel', kern), ('py_func', getattr(kern, 'py_func', None))):
+        if fn is None:
+            continue
+        c = np.zeros((cl + cu + 1, n))
+        try:
+            fn(a, b, c, al, au, bl, bu, cu, n, lb)
+            res[name] = c.tolist()
+        except Exception as e:   # noqa
+            res[name + '_exc'] = type(e).__name__
+    return res
 
 
 # ---------------------------------------------------------------------------- oracle
@@ -136,6 +169,9 @@ def run_oracle(job):
     from pybaselines import Baseline
     from harness import methods
     x, y0 = make_data(job['n'], job['seed'], job.get('ykind', 'noise'))
+    if job.get('y') is not None:
+        y0 = np.array(job['y'], dtype=float)
+        x = np.arange(len(y0), dtype=float)
     out = {}
     runs = [(str(bs), bs, y0) for bs in job['bs_list']]
     if job.get('perturb') is not None:
@@ -230,7 +266,9 @@ def main(argv):
     block_numba, block_pentapy = int(argv[0]), int(argv[1])
     install_blockers(block_numba, block_pentapy)
     job = json.load(sys.stdin)
-    res = {'facts': shim_facts() if job.get('facts') else None, 'capture': {}, 'oracle': {}}
+    res = {'facts': shim_facts() if job.get('facts') else None, 'capture': {}, 'oracle': {}, 'bdb': {}}
+    for case in job.get('bdb', []):
+        res['bdb'][case['id']] = run_bdb(case)
     for case in job.get('capture', []):
         res['capture'][case['id']] = run_capture(case)
     for oj in job.get('oracle', []):
